@@ -79,15 +79,12 @@ func recursionGuards(r *core.Run) {
 	}
 	o := r.Add("R-TERM/T2", "j5schema.buildMessageFieldSchema | flatten cycle rejected", fd.Pos(), "flatten of a message into itself")
 	found := false
-	ast.Inspect(fd.Body, func(n ast.Node) bool {
-		ifs, ok := n.(*ast.IfStmt)
-		if !ok {
-			return true
-		}
-		c := core.ExprStr(ifs.Cond)
+	// the guard may be an `if` or a clause of a tagless switch
+	for _, rg := range core.GuardedRegions(fd.Body) {
+		c := core.ExprStr(rg.Cond)
 		// `<flatten flag> && <ref>.To == nil`: a boolean local (whatever it is called) together with the unlinked-reference test
 		hasFlag := false
-		if b, ok := core.Unparen(ifs.Cond).(*ast.BinaryExpr); ok && b.Op == token.LAND {
+		if b, ok := core.Unparen(rg.Cond).(*ast.BinaryExpr); ok && b.Op == token.LAND {
 			for _, side := range []ast.Expr{b.X, b.Y} {
 				if id, ok := core.Unparen(side).(*ast.Ident); ok {
 					if bt, ok := pk.TypesInfo.TypeOf(id).Underlying().(*types.Basic); ok && bt.Info()&types.IsBoolean != 0 {
@@ -96,13 +93,12 @@ func recursionGuards(r *core.Run) {
 				}
 			}
 		}
-		if hasFlag && strings.Contains(c, ".To == nil") && len(ifs.Body.List) > 0 {
-			if ret, ok := ifs.Body.List[len(ifs.Body.List)-1].(*ast.ReturnStmt); ok && len(ret.Results) == 2 && !core.IsNilIdent(pk.TypesInfo, ret.Results[1]) {
+		if hasFlag && strings.Contains(c, ".To == nil") && len(rg.Body) > 0 {
+			if ret, ok := rg.Body[len(rg.Body)-1].(*ast.ReturnStmt); ok && len(ret.Results) == 2 && !core.IsNilIdent(pk.TypesInfo, ret.Results[1]) {
 				found = true
 			}
 		}
-		return true
-	})
+	}
 	if found {
 		o.Auto("`flatten && ref.To == nil` (reference still being built) returns an error, so ObjectSchema.ClientProperties only ever recurses over an acyclic flatten graph")
 	} else {
